@@ -21,12 +21,38 @@ ANCHORS = [("leuvenmapmatching/matcher/base.py", "BaseMatcher._match_non_emittin
            ("leuvenmapmatching/matcher/base.py", "LatticeColumn.upsert"),
            ("leuvenmapmatching/matcher/base.py", "BaseMatching.update")]
 FLOORS = {"pairs_judged": 1800, "on_run_uses_nonemitting": 500, "results_differ": 300, "both_complete": 800, "on_run_longer": 50,
-          "family:simple": 300, "family:simple_nodes": 300, "family:distance": 300, "debug_level_pairs": 400, "linked_edge_pairs": 500, "out_and_back_cases": 800}
+          "family:simple": 300, "family:simple_nodes": 300, "family:distance": 300, "debug_level_pairs": 400, "linked_edge_pairs": 500, "out_and_back_cases": 800, "dense_cases_more_than_100_candidates": 30}
 ASSUMPTIONS = ["both runs are instantiated from one explicit configuration dict; only `non_emitting` differs",
                "best probability compared at 1e-9*max(1,|x|)"]
 
 
+def gen_dense_case(rng):
+    """more than 100 live candidates in one column (a car park: many short aisles beside the first observations, closer than
+    the through road the vehicle then takes): any bound on the number of candidates inside the implementation bites here."""
+    na = rng.randint(105, 160)
+    L = 20
+    nodes = [[j, [0.0, float(j)]] for j in range(L + 1)]
+    edges = [[j, j + 1] for j in range(L)]
+    if rng.random() < 0.4:
+        edges += [[j + 1, j] for j in range(L)]
+    nid = L + 1
+    off = rng.choice([0.3, 0.4])
+    for a in range(na):
+        y = off + (a - na / 2.0) * (0.25 / na)
+        nodes += [[nid, [y, 0.0]], [nid + 1, [y, 1.6]]]
+        edges.append([nid, nid + 1])
+        nid += 2
+    tr = [[off, 0.3], [off, 1.1], [0.05, 1.9], [0.0, 2.7], [-0.05, 3.5], [0.0, 4.3], [0.0, 5.1]]
+    tr = tr[:rng.randint(4, 7)]
+    cfg = gen.gen_cfg(rng, ne=False, width=False, agb=False, cut=False)
+    cfg["obs_noise"] = rng.choice([0.5, 1.0])
+    cfg["max_dist"] = 1.0
+    return {"map": {"nodes": nodes, "edges": edges, "latlon": False, "kind": "dense"}, "trace": tr, "cfg": cfg, "debug": False, "dense": True}
+
+
 def gen_case(rng, i, tier):
+    if i % 120 == 57:
+        return gen_dense_case(rng)
     if i % 10 == 7:
         case = gen.gen_carriageway_case(rng)   # linked parallel carriageways with a by-pass ending in the same node
         case["cfg"].update(non_emitting=False, agb=False, width=None)
@@ -80,6 +106,8 @@ def gen_case(rng, i, tier):
 def check_case(ctx, case):
     if case.get("out_and_back"):
         ctx.count("out_and_back_cases")
+    if case.get("dense"):
+        ctx.count("dense_cases_more_than_100_candidates")
     tr = build.trace(case["trace"])
     res = {}
     for on in (False, True):
